@@ -2,8 +2,14 @@
     [KProg]: a command program run on the real framework.Statement, with the
     full projection of the real session after every command.
     [KCycle]: one real scheduling cycle (Run/Cycle.v); the C13 clause on it is
-    "every pod is bound / nominated / evicted at most once". *)
-From KaiV Require Export Run.Cycle Model.Session.
+    "every pod is bound / nominated / evicted at most once".
+    The monitor of a program has two independent parts: the dump-based clauses
+    (Rollback / Discard restore the checkpoint's dump, the calls of a Commit are
+    the net status change between the dumps) and the log-level clauses of
+    Model/SessionSpec.v (the calls of a Commit are the steps still valid
+    according to the command history; a successful un-eviction that leaves the
+    pod without a valid eviction is itself a rollback of that eviction). *)
+From KaiV Require Export Run.Cycle Model.Session Model.SessionSpec.
 Open Scope Z_scope.
 
 Record ojob := mkOJ { oj_alloc : res; oj_active : Z; oj_idx : list Z; oj_psets : amap psview }.
@@ -95,7 +101,9 @@ Definition prog_agrees (k : pcase) : bool :=
        (if k_wf k then k_steps k
         else firstn (S (wf_prefix (fails_of k) [] false (k_init k) (prog_of k))) (k_steps k))
   (* programs generated from the status preconditions alone satisfy the full well-formedness predicate *)
-  && (if k_wf k then wf_prog (fails_of k) (k_init k) (prog_of k) else true).
+  && (if k_wf k then wf_prog (fails_of k) (k_init k) (prog_of k) else true)
+  (* hypothesis of C13_commit_log_spec: the pod map of the initial session is keyed by pod id *)
+  && keyed_b (k_init k).
 
 (** * The property on the real dumps *)
 
@@ -173,17 +181,18 @@ Definition expected (f : pview -> pview -> bool) (start pre : odump) : list posi
 Definition called (f : api_call -> option positive) (cs : list api_call) : list positive :=
   flat_map (fun c => match f c with Some p => [p] | None => [] end) cs.
 Definition subset (a b : list positive) : bool := forallb (fun x => in_pos x b) a.
+Definition bind_failed_in (fails : nat -> bool) (ncalls : nat) (cs : list api_call) : bool :=
+  (fix go (cs : list api_call) (i : nat) : bool :=
+     match cs with
+     | [] => false
+     | ABind _ _ _ :: r => fails i || go r (S i)
+     | _ :: r => go r (S i)
+     end) cs ncalls.
 Definition commit_ok (fails : nat -> bool) (ncalls : nat) (start pre : odump) (cs : list api_call) : bool :=
   let binds := called (fun c => match c with ABind p _ _ => Some p | _ => None end) cs in
   let pipes := called (fun c => match c with APipe p _ _ => Some p | _ => None end) cs in
   let evs := called (fun c => match c with AEvict p => Some p | _ => None end) cs in
-  let bind_failed :=
-    (fix go (cs : list api_call) (i : nat) : bool :=
-       match cs with
-       | [] => false
-       | ABind _ _ _ :: r => fails i || go r (S i)
-       | _ :: r => go r (S i)
-       end) cs ncalls in
+  let bind_failed := bind_failed_in fails ncalls cs in
   nodup_posb binds && nodup_posb pipes && nodup_posb evs
   && subset binds (expected expect_bind start pre)
   && subset pipes (expected expect_pipe start pre)
@@ -192,12 +201,94 @@ Definition commit_ok (fails : nat -> bool) (ncalls : nat) (start pre : odump) (c
       || (subset (expected expect_bind start pre) binds && subset (expected expect_pipe start pre) pipes
           && subset (expected expect_evict start pre) evs)).
 
+(** * The property on the command history (Model/SessionSpec.v) and the real outputs *)
+Definition jobof_k (k : pcase) (p : positive) : option positive :=
+  match static_task k p with Some t => Some (t_job t) | None => None end.
+(** where the command's pod sits according to the real dump taken before the command *)
+Definition loc_obs (d : odump) (c : cmd) : option positive * list positive :=
+  match cmd_pod c with
+  | Some p => match pstatus d p with Some v => (v_node v, v_groups v) | None => (None, []) end
+  | None => (None, [])
+  end.
+
+Definition xkey := (ckind * positive * option positive)%type.
+Definition xkey_eqb (a b : xkey) : bool :=
+  ckind_eqb (fst (fst a)) (fst (fst b)) && Pos.eqb (snd (fst a)) (snd (fst b)) && opt_pos_eqb (snd a) (snd b).
+Definition key_eqb (a b : ckind * positive) : bool := ckind_eqb (fst a) (fst b) && Pos.eqb (snd a) (snd b).
+Definition item_xkey (it : vitem) : xkey := (item_key it, item_node it).
+Definition call_xkey (c : api_call) : xkey := (call_key c, call_node c).
+Fixpoint nodup_keyb (l : list (ckind * positive)) : bool :=
+  match l with
+  | [] => true
+  | x :: r => negb (existsb (key_eqb x) r) && nodup_keyb r
+  end.
+Definition xsub (a b : list xkey) : bool := forallb (fun x => existsb (xkey_eqb x) b) a.
+
+(** Commit: one call per still-valid step (kind, pod, node), no call twice, nothing else; a failed
+    Bind ends the commit early, the later steps are then not emitted *)
+Definition log_commit_ok (bind_failed : bool) (V : vset) (cs : list api_call) : bool :=
+  let got := map call_xkey cs in
+  let want := map item_xkey V in
+  nodup_keyb (map call_key cs) && xsub got want && (bind_failed || xsub want got).
+
+(** component-wise sums of the job books (all counters are additive in the pods) *)
+Definition psv_add (a b : psview) : psview :=
+  mkPSV (sv_aa a + sv_aa b) (sv_au a + sv_au b) (sv_alive a + sv_alive b) (sv_pending a + sv_pending b) (sv_gated a + sv_gated b).
+Fixpoint zip_amap {V} (f : V -> V -> V) (a b : amap V) : amap V :=
+  match a, b with
+  | (k, x) :: r, (_, y) :: r' => (k, f x y) :: zip_amap f r r'
+  | _, _ => []
+  end.
+Fixpoint zip_z (a b : list Z) : list Z :=
+  match a, b with x :: r, y :: r' => (x + y) :: zip_z r r' | _, _ => [] end.
+Definition ojob_add (a b : ojob) : ojob :=
+  mkOJ (radd (oj_alloc a) (oj_alloc b)) (oj_active a + oj_active b) (zip_z (oj_idx a) (oj_idx b))
+       (zip_amap psv_add (oj_psets a) (oj_psets b)).
+Definition same_keys {V} (a b : amap V) : bool := list_eqb Pos.eqb (map fst a) (map fst b).
+(** x1 + y1 = x2 + y2 on every job / on the linear columns of every queue (the whole-GPU column of
+    Session.QueueAllocatedResources is rounded) *)
+Definition jobs_balance (x1 y1 x2 y2 : amap ojob) : bool :=
+  same_keys x1 y1 && same_keys x1 x2 && same_keys x1 y2
+  && amap_eqb ojob_eqb (zip_amap ojob_add x1 y1) (zip_amap ojob_add x2 y2).
+Definition res_lin (a b : res) : res := mkRes (cpu a + cpu b) (mem a + mem b) 0 0 0 0.
+Definition queues_balance (x1 y1 x2 y2 : amap res) : bool :=
+  same_keys x1 y1 && same_keys x1 x2 && same_keys x1 y2
+  && amap_eqb req (zip_amap res_lin x1 y1) (zip_amap res_lin x2 y2).
+
+(** A successful un-eviction of [p] (Unevict, or Pipeline onto the pod's own node and devices) that
+    leaves [p] without a valid eviction is a rollback of that eviction:
+      - [p] has the status, node, devices and virtual flag it had in the dump taken before the eviction;
+      - when the steps still valid are those that were valid before the eviction, every pod, every
+        job's books and every queue's usage are those of that dump;
+      - otherwise the job books and the queue usage move back by exactly what the eviction moved them.
+    [pd]: for every recorded operation, the real dumps before and after the command that recorded it. *)
+Definition unevict_clause (k : pcase) (hs : hstate) (pd : list (odump * odump)) (prev d : odump)
+           (p : positive) (popped : vitem) (V' : vset) : bool :=
+  match popped with
+  | VEv _ _ pos =>
+      if existsb (is_ev_of p) V' then true else
+      match nth_error pd pos, nth_error hs pos with
+      | Some (bef, aft), Some V0 =>
+          match pstatus d p, pstatus bef p with
+          | Some a, Some b => pview_eqb a b
+          | _, _ => false
+          end
+          && (if list_eqb xkey_eqb (map item_xkey V') (map item_xkey V0)
+              then pods_same k false (od_pods d) (od_pods bef) && amap_eqb ojob_eqb (od_jobs d) (od_jobs bef)
+                   && amap_eqb req (od_queues d) (od_queues bef)
+              else jobs_balance (od_jobs d) (od_jobs aft) (od_jobs prev) (od_jobs bef)
+                   && queues_balance (od_queues d) (od_queues aft) (od_queues prev) (od_queues bef))
+      | _, _ => false
+      end
+  | _ => true
+  end.
+
 Definition assoc_nat {A} (n : nat) (l : list (nat * A)) : option A :=
   match find (fun p => Nat.eqb (fst p) n) l with Some p => Some (snd p) | None => None end.
 
 (** returns (ok, a restore held only modulo the whole-GPU columns of an exposed node) *)
 Fixpoint mon (k : pcase) (ncalls : nat) (start : odump) (cps : list (nat * odump)) (exp : list positive)
-         (prev : odump) (ss : list ostep) : bool * bool :=
+         (hs : hstate) (pd : list (odump * odump)) (prev : odump) (ss : list ostep) : bool * bool :=
   match ss with
   | [] => (true, false)
   | st :: r =>
@@ -218,12 +309,32 @@ Fixpoint mon (k : pcase) (ncalls : nat) (start : odump) (cps : list (nat * odump
         | Commit => (commit_ok (fails_of k) ncalls start prev (os_calls st), false, d, [], exp1)
         | _ => (match os_calls st with [] => true | _ => false end, false, start, cps, exp1)
         end in
-      let '(ok, q) := mon k nc start1 cps1 exp2 d r in
-      (here && ok, quirk || q)
+      (* the log-level clauses *)
+      let hs1 := if os_err st then hs else hstep (jobof_k k) hs (os_cmd st) (loc_obs prev (os_cmd st)) in
+      let grew := Nat.ltb (List.length hs) (List.length hs1) in
+      let pd1 := match os_cmd st with
+                 | Rollback cp => if os_err st then pd else firstn cp pd
+                 | Discard | Commit => []
+                 | _ => if grew then pd ++ [(prev, d)] else pd
+                 end in
+      let logc :=
+        match os_cmd st with
+        | Commit => log_commit_ok (bind_failed_in (fails_of k) ncalls (os_calls st)) (hcur hs) (os_calls st)
+        | Unevict p | Pipeline p _ _ _ =>
+            if grew && Nat.ltb (List.length (hcur hs1)) (List.length (hcur hs)) then
+              match pop_ev p (hcur hs) with
+              | Some (it, V') => unevict_clause k hs pd prev d p it V'
+              | None => true
+              end
+            else true
+        | _ => true
+        end in
+      let '(ok, q) := mon k nc start1 cps1 exp2 hs1 pd1 d r in
+      (here && logc && ok, quirk || q)
   end.
 
 Definition prog_monitor (k : pcase) : bool * bool :=
-  if k_wf k then mon k 0 (k_dump0 k) [] (exposed_nodes k (k_dump0 k)) (k_dump0 k) (k_steps k) else (true, false).
+  if k_wf k then mon k 0 (k_dump0 k) [] (exposed_nodes k (k_dump0 k)) [[]] [] (k_dump0 k) (k_steps k) else (true, false).
 
 (** * Real cycles: at most one call of each kind per pod *)
 Definition cycle_once (k : ccase) : bool :=
